@@ -121,6 +121,7 @@ CHECKS = {
                      "references, inline vs scoped flags, hex/unicode escapes, possessive vs atomic, \\A \\z); every spelling is compiled and run over all cells; TLC "
                      "requires rows = RefSem of the base pattern and the same parser tree as the plain spelling; in the other direction the real parser's tree for "
                      "every spelling must equal the tree Parse.tla (parser model) computes, and in the model a spelling and its plain form must parse alike; "
+                     "MC_Pipeline runs the whole specified pipeline (Spell -> Parse.tla -> Front -> Analyze -> Compile -> VM.tla) against RefSem of the intended pattern for every style; "
                      "MC_Front closes the loop in the specification: Norm(Abs(Parse.tla(Spell(ast, style)))) = Norm(ast), group count and named-group map, for every pattern x style.",
                 note="Spellings are generated by Spell.tla; the parser is ALSO modelled as a recogniser (Parse.tla), validated on every spelling and on the C06 input spaces. Findings F10 (inline flags leaking out of capturing "
                      "groups) and F11 (blank inside a class under (?x)) are recorded, probed by witnesses and kept out of the generated styles. " + TCB,
